@@ -70,6 +70,12 @@ func applyTouch(root string, tc *Touch, obs *disk.Node) string {
 			return ""
 		}
 		os.Chmod(full, os.FileMode(n.Perm^0o010))
+	case "chmod-special": // only setuid / setgid / sticky change
+		if n == nil || n.Kind != disk.File {
+			return ""
+		}
+		special := []os.FileMode{os.ModeSetuid, os.ModeSetgid, os.ModeSticky}[len(tc.Path)%3]
+		os.Chmod(full, os.FileMode(n.Perm&0o777)|special)
 	case "new-inode": // identical bytes, mode and mtime, different file identity
 		if n == nil || n.Kind != disk.File {
 			return ""
@@ -301,7 +307,7 @@ func drawCase(rt *rapid.T) *Case {
 		var ops []string
 		switch e.Kind {
 		case tree.KFile:
-			ops = []string{"grow", "same-size-later-mtime", "touch", "chmod", "new-inode", "to-dir", "to-link"}
+			ops = []string{"grow", "same-size-later-mtime", "touch", "chmod", "chmod-special", "new-inode", "to-dir", "to-link"}
 		case tree.KLink:
 			ops = []string{"retarget", "to-file", "to-dir"}
 		case tree.KDir:
